@@ -46,6 +46,11 @@ CHECKS = {
    "Generated-input search: aggregate statements (every aggregate, wrappers, 0-2 GROUP BY elements, WHERE, HAVING incl. hidden aggregates) over small-domain data with NULL-heavy columns run through the real FileExecutor; the printed table is compared row by row and cell by cell with a filter / bucket / order / fold reference computed from the rows the real extract produced. Exploration, not proof. One recorded known finding (F09b) is excluded by construction and replayed as a witness.",
    "PERCENTILE judged by a validity predicate, AVG(INT) truncated-or-real, STDDEV/VARIANCE population form with tolerance; documents-unspecified sub-cases counted and not judged.",
    "DESIGN.md §3 C04, Appendix A"),
+ "C05": (True,
+   "property-based testing: differential against a nested-loop reference join feeding the C03/C04 reference executors, over generated table pairs, files and statements",
+   "Generated-input search: two tables and files with duplicated, NULL and one-sided keys, name clashes, INNER/OUTER, ON in either order, SELECT or aggregate statements; the real FileExecutor output is compared with nested-loop pairing (reference equality on non-NULL keys, OUTER adds a NULL-right row) followed by the reference evaluators; missing file / missing join column must be errors. Exploration, not proof.",
+   "Join keys of one type on both sides (mixed numeric keys, -0.0, NaN belong to C16); OUTER JOIN under an aggregate not judged.",
+   "DESIGN.md §3 C05"),
 }
 
 NOT_YET = {
